@@ -57,7 +57,6 @@ typedef int (*compare_fn_t)(const void*, const void*);
 static compare_fn_t get_compare_fn(carquet_physical_type_t type) {
     switch (type) {
         case CARQUET_PHYSICAL_INT32:
-        case CARQUET_PHYSICAL_BOOLEAN:
             return compare_int32;
         case CARQUET_PHYSICAL_INT64:
             return compare_int64;
@@ -185,6 +184,14 @@ carquet_status_t carquet_reader_row_group_matches(
     int cmp_min, cmp_max;
 
     if (cmp_fn) {
+        /* The statistics come from the file: a min/max shorter than the type
+         * (BOOLEAN is one byte and is compared as bytes below) cannot be
+         * compared, so nothing can be pruned. */
+        size_t need = (type == CARQUET_PHYSICAL_INT64 ||
+                       type == CARQUET_PHYSICAL_DOUBLE) ? 8 : 4;
+        if ((size_t)stats.min_value_size < need || (size_t)stats.max_value_size < need) {
+            return CARQUET_OK;
+        }
         cmp_min = cmp_fn(value, stats.min_value);
         cmp_max = cmp_fn(value, stats.max_value);
     } else {
